@@ -190,7 +190,7 @@ def run_transfer_case_mpi(inst, p, sched_seed=0, policy='random'):
         desc = dict(problem_class=pcF, problem_params={k: [ppF[k], ppG[k]] for k in ppF}, sweeper_class=mpi_sweeper_class(kind),
                     sweeper_params=sw, level_params=dict(dt=zp_cases.dt_float(inst['dt'])), step_params=dict(maxiter=1),
                     base_transfer_class=ZpBaseTransferMPI.get(),
-                    base_transfer_params=dict(Rc=[list(r) for r in T['Rc']], Pc=[list(r) for r in T['Pc']]),
+                    base_transfer_params=dict(Rc=[list(r) for r in T['Rc']], Pc=[list(r) for r in T['Pc']], finter=bool(inst.get('finter'))),
                     space_transfer_class=zp_cases.ZpSpaceTransfer, space_transfer_params=dict(Rs=[list(r) for r in T['Rs']], Ps=[list(r) for r in T['Ps']]))
         S = Step(desc)
         LF, LG = S.levels
@@ -217,7 +217,9 @@ def run_transfer_case_mpi(inst, p, sched_seed=0, policy='random'):
         o['prolonged'] = LF.u[r + 1].tolist()
         fresh = LF.prob.eval_f(LF.u[r + 1], LF.time + LF.dt * LF.sweep.coll.nodes[r])
         fm = LF.f[r + 1]
-        o['f_fresh'] = (fresh.impl == fm.impl and fresh.expl == fm.expl) if kind == 'imex' else (fresh == fm)
+        o['f_mine'] = (fm.impl.tolist(), fm.expl.tolist()) if kind == 'imex' else (fm.tolist(), [0] * inst['n'])
+        # with prolong_f the stored right-hand sides are interpolated, not re-evaluated
+        o['f_fresh'] = bool(inst.get('finter')) or ((fresh.impl == fm.impl and fresh.expl == fm.expl) if kind == 'imex' else (fresh == fm))
         o['fine_u0_kept'] = LF.u[0].tolist() == list(inst['u0'])
         return o
 
@@ -240,9 +242,12 @@ def run_transfer_case_mpi(inst, p, sched_seed=0, policy='random'):
         info['agree'].append('coarse_res')
     out['coarse_res'] = cr[0]
     out['defined'] = all(results[m]['defined'] for m in range(M))
+    out['finter'] = bool(inst.get('finter'))
     if out['defined']:
         out['coarse_swept'] = [results[m]['coarse_swept'] for m in range(M)]
         out['prolonged'] = [results[m]['prolonged'] for m in range(M)]
+        out['f_impl'] = [results[m]['f_mine'][0] for m in range(M)]
+        out['f_expl'] = [results[m]['f_mine'][1] for m in range(M)]
         out['fine_u0_kept'] = all(results[m]['fine_u0_kept'] for m in range(M))
         out['f_fresh'] = all(results[m]['f_fresh'] for m in range(M))
     return out, w.events, info
